@@ -105,8 +105,8 @@ _C09_CFG = [  # name, lengths, tier, numProp (None = arbitrary)
   ('runs_1_0',        (12, 12, 0, 0, 1, 0, 0, 0, 0, 0),  't', 3),
   ('faceid_4',        (12, 12, 0, 0, 0, 0, 0, 0, 4, 0),  't', 3),
   ('faceid_3',        (12, 12, 0, 0, 0, 0, 0, 0, 3, 0),  't', 3),
-  ('tangent_48',      (12, 12, 0, 0, 0, 0, 0, 0, 0, 48), 'q', 3),
-  ('tangent_4',       (12, 12, 0, 0, 0, 0, 0, 0, 0, 4),  't', 3),
+  ('tangent_48',      (12, 12, 0, 0, 0, 0, 0, 0, 0, 48), 'x', 3),
+  ('tangent_4',       (12, 12, 0, 0, 0, 0, 0, 0, 0, 4),  'q', 3),
   ('flags_1_runs_2',  (12, 12, 0, 0, 3, 2, 0, 1, 0, 0),  't', 3),
   ('props4',          (16, 12, 1, 1, 0, 0, 0, 0, 0, 0),  't', 4),
   ('anyprop_small',   (4, 3, 1, 1, 1, 1, 12, 1, 1, 4),   'q', None),
@@ -117,9 +117,9 @@ _C09_CFG = [  # name, lengths, tier, numProp (None = arbitrary)
 def _c09(name, lens, tier, numprop=3, entry='h_ingest64', what='MeshGL64'):
     return dict(name=name, harness='c09_ingest.cpp', entry=entry, defs=dict({'VF_LENS': ','.join(map(str, lens))}, **({'VF_NUMPROP': numprop} if numprop is not None else {})),
                 cuts=_INGEST_CUTS, redirect=_INGEST_REDIR, models=['rbtree.h'],
-                unwind={'default': 5, 'h_ingest|sym|fixedvec': 49, 'Rb_tree': 3, 'find_if': 13}, recursion={'default': 2}, backends=['minisat'], timeout=1500, object_bits=12, mem_gb=24,
+                unwind={'default': 13 if lens[9] > 16 else 5, 'h_ingest|sym|fixedvec': 49, 'Rb_tree': 3, 'find_if': 13}, recursion={'default': 2}, backends=['minisat'], timeout=1500, object_bits=12, mem_gb=24,
                 cdefs=['VF_ALLOC_CLASSES=VF_C(4) VF_C(8) VF_C(12) VF_C(16) VF_C(24) VF_C(32) VF_C(48) VF_C(64) VF_C(96) VF_C(192) VF_C(384)'],
-                tiers=['quick', 'thorough'] if tier == 'q' else ['thorough'],
+                tiers=['quick', 'thorough'] if tier == 'q' else (['experimental'] if tier == 'x' else ['thorough']),
                 claim='Impl::Impl(%s) up to the call of CreateHalfedges, numProp %s, vector lengths %s (vertProperties, triVerts, mergeFromVert, mergeToVert, runIndex, runOriginalID, runTransform, runFlags, faceID, halfedgeTangent): memory safe, no div-by-zero / overflow / throw for every tolerance and every content; early returns are empty with an error' % (what, ('= %s' % numprop) if numprop is not None else 'ARBITRARY', lens),
                 bounds='lengths fixed per query as listed; numProp, tolerance and ALL contents (indices: any 64/32-bit value, floats: any bit pattern) arbitrary',
                 targets=['Manifold::Impl::Impl<%s>(MeshGLP)' % ('double,uint64_t' if what == 'MeshGL64' else 'float,uint32_t'), 'MeshGLP::NumVert/NumTri/Backside/HasNormals', 'Manifold::Impl::MakeEmpty', 'Vec<T>', 'std::map insert (modelled tree)'])
@@ -195,6 +195,8 @@ PROPERTIES['C17'] = {
          bounds='all 64-bit doubles (incl. NaN, inf, denormals) and all ints', targets=['manifold.cpp Quality::SetMinCircularAngle/SetMinCircularEdgeLength/SetCircularSegments/GetCircularSegments']),
     dict(name='circular_segments_default', harness='c17_numeric.cpp', entry='h_circular_segments_default', models=['libm.h'], backends=['minisat'], timeout=600, unwind={'default': 3},
          claim='with default Quality: 4 <= n <= 36, multiple of 4, even in radius, monotone non-decreasing in |radius|', bounds='all doubles', targets=['Quality::GetCircularSegments']),
+    dict(name='sind_exact_k8', harness='c17_numeric.cpp', entry='h_sind_exact', defs={'VF_KMAX': 8}, models=['libm.h'], backends=['minisat', 'kissat'], timeout=900, unwind={'default': 3}, recursion={'sind': 2}, object_bits=12, forbid=['_ZN8manifold4math7RemPio2.*'],
+         claim='sind(90k) and cosd(90k) are exactly 0, +1 or -1 with the right sign for |k| <= 8 (two full turns in both directions)', bounds='|k| <= 8; remquo by contract; RemPio2 asserted unreachable', targets=['common.h sind, cosd', 'math.h sin, cos (small-argument paths)']),
     dict(name='sind_exact', harness='c17_numeric.cpp', entry='h_sind_exact', models=['libm.h'], backends=['minisat', 'kissat'], timeout=900, tiers=['experimental'], unwind={'default': 3}, recursion={'sind': 2}, object_bits=12, forbid=['_ZN8manifold4math7RemPio2.*'],
          claim='sind(90k) and cosd(90k) are exactly 0, +1 or -1 with the right sign', bounds='|k| <= 10^6; remquo by contract; the large-argument reduction RemPio2 is asserted unreachable', targets=['common.h sind, cosd', 'math.h sin, cos (small-argument paths)']),
     dict(name='sind_nonfinite', harness='c17_numeric.cpp', entry='h_sind_nonfinite', models=['libm.h'], backends=['minisat'], timeout=600, unwind={'default': 3}, recursion={'sind': 2}, object_bits=12, forbid=['_ZN8manifold4math7RemPio2.*'],
@@ -240,7 +242,7 @@ PROPERTIES['C04'] = {
     dict(name='cmp_edgepos', harness='c04_edgepos.cpp', entry='h_cmp_edgepos', backends=['minisat'], timeout=300, unwind={'default': 2},
          claim='EdgePos::operator< strict weak order; ties <=> equal (edgePos, collisionId)', bounds='all finite doubles, all ints', targets=['boolean_result.cpp EdgePos::operator<']),
     _c13('par_exscan_lastnz', 'h_exscan_lastnz', 'exclusive_scan(Par) with a non-commutative operator is schedule independent (== sequential)'),
-    _c13('par_merge_rec_len3', 'h_merge_rec', 'parallel stable merge == sequential stable merge for every invoke order [length 3]', n=3, unwind={'default': 6}, recursion={'mergeRec|mergeSortRec': 3}, timeout=900, defs_extra={'VF_LEN': 3}, tiers=['experimental']),
+    _c13('par_merge_rec_len3', 'h_merge_rec', 'parallel stable merge == sequential stable merge for every invoke order [length 3]', n=3, unwind={'default': 6}, recursion={'mergeRec|mergeSortRec|parallel_invoke': 2}, timeout=1800, mem_gb=16, defs_extra={'VF_LEN': 3}, tiers=['thorough']),
   ],
 }
 for _p in ('C04', 'C13'):
